@@ -44,30 +44,102 @@ theorem ring_refines_history (num : Nat) (ivl : Int) (tss : List Int) :
 example : ringRun 10 (Ring.new 3) [1, 2, 3, 20, 21, 22] = [false, false, true, false, false, true] := by
   decide
 
-/-- **backoff_is_window_log_partial.** With cache entries that never expire (non-positive `Period`
-and `Duration`), for every history of events with positive non-decreasing times the real limiter's
-verdicts are exactly those of the specification `specRun`: a query is dropped iff ANY-refusal applies,
-or its bucket has already exceeded its limit `count` times (backoff), or at least `limit` earlier
-counted events of its bucket lie in the closed window; allowlisted clients pass untouched.
-PARTIAL: histories in which a `reqCounters`/`hitCounters` entry expires are not covered
-(known finding `reqcounter-expires-period-after-creation`). -/
-theorem backoff_is_window_log_partial (c : Cfg) (hp : c.period ≤ 0) (hdur : c.duration ≤ 0)
-    (h4 : 0 ≤ c.v4ivl) (h6 : 0 ≤ c.v6ivl) (evs : List Ev) (hch : Chain 0 evs) :
-    run c St.empty evs = specRun c Spec.empty evs := by
-  have key : ∀ (evs : List Ev) (s : St) (sp : Spec) (T : Int), (∀ k, SimK c s sp k) → TimeInv sp T →
-      Chain T evs → run c s evs = specRun c sp evs := by
+/-- **backoff_refines_epoch_log.** For ALL `Period`/`Duration` values (cache entries may expire) and
+every history of events with positive non-decreasing times, the real limiter's verdicts are exactly
+those of the epoch window-log specification `especRun`: a query is dropped iff ANY-refusal applies, or
+its bucket's hit epoch is alive (`Duration` after its first hit) and has reached `count` hits
+(backoff), or at least `limit` earlier counted events of the bucket's current counter epoch lie in the
+closed window, where the counter epoch (the log) is wiped `Period` after its *creation*, used or not;
+allowlisted clients pass untouched.  Unconditional; the reset `Period` after creation (known finding
+`reqcounter-expires-period-after-creation`) is part of this specification. -/
+theorem backoff_refines_epoch_log (c : Cfg) (h4 : 0 ≤ c.v4ivl) (h6 : 0 ≤ c.v6ivl) (evs : List Ev)
+    (hch : Chain 0 evs) :
+    run c St.empty evs = especRun c ESpec.empty evs := by
+  have key : ∀ (evs : List Ev) (s : St) (sp : ESpec) (T : Int), (∀ k, ESimK c s sp k) →
+      ETimeInv sp T → Chain T evs → run c s evs = especRun c sp evs := by
     intro evs
     induction evs with
     | nil => intro _ _ _ _ _ _; rfl
     | cons e r ih =>
       intro s sp T hs ht hc
       obtain ⟨hpos, hT, hrest⟩ := hc
-      have := sim_step c s sp e T hp hdur h4 h6 hs ht hpos hT
-      simp only [run, specRun]
+      have := esim_step c s sp e T h4 h6 hs ht hpos hT
+      simp only [run, especRun]
       rw [this.1, ih _ _ _ this.2.1 this.2.2 hrest]
-  apply key evs St.empty Spec.empty 0 _ _ hch
-  · intro k; simp [SimK, St.empty, Spec.empty]
-  · intro k; simp [Spec.empty, Desc]
+  apply key evs St.empty ESpec.empty 0 _ _ hch
+  · intro k; simp [ESimK, St.empty, ESpec.empty]
+  · intro k; simp [ESpec.empty, Desc]
+
+/-- **epoch_log_exact_when_resets_quiet.** If every reset of a bucket's log along the history is quiet
+(each discarded stamp had already left the window), the epoch specification gives the verdicts of the
+reset-free one, `{ c with period := 0 }` — the exact per-subnet sliding window with backoff.  Times
+need only be non-decreasing. -/
+theorem epoch_log_exact_when_resets_quiet (c : Cfg) (evs : List Ev) (hch : Chain 0 evs)
+    (hq : QuietResets c ESpec.empty evs) :
+    especRun c ESpec.empty evs = especRun { c with period := 0 } ESpec.empty evs := by
+  have key : ∀ (evs : List Ev) (sp sp0 : ESpec) (T : Int), (∀ k, QSimK c sp sp0 T k) →
+      Chain T evs → quietResets c sp evs = true →
+      especRun c sp evs = especRun { c with period := 0 } sp0 evs := by
+    intro evs
+    induction evs with
+    | nil => intro _ _ _ _ _ _; rfl
+    | cons e r ih =>
+      intro sp sp0 T hs hc hq
+      obtain ⟨_, hT, hrest⟩ := hc
+      simp only [quietResets, Bool.and_eq_true] at hq
+      have := qsim_step c sp sp0 e T hs hT hq.1
+      simp only [especRun]
+      rw [this.1, ih _ _ _ this.2 hrest hq.2]
+  apply key evs ESpec.empty ESpec.empty 0 _ hch hq
+  intro k; simp [QSimK, QRel, ESpec.empty]
+
+/-- **quietResets_of_no_period.** With a non-positive `Period` no reset ever happens, so every history
+has quiet resets. -/
+theorem quietResets_of_no_period (c : Cfg) (hp : c.period ≤ 0) (sp : ESpec) (evs : List Ev) :
+    QuietResets c sp evs := by
+  unfold QuietResets
+  induction evs generalizing sp with
+  | nil => rfl
+  | cons e r ih => simp only [quietResets, quietStep_of_no_period c hp, ih, Bool.and_self]
+
+/-- **backoff_is_window_log_partial.** For every history of events with positive non-decreasing
+times in which every reset of a `reqCounters` entry is quiet, the real limiter's verdicts are exactly
+those of the reset-free window-log specification: a query is dropped iff ANY-refusal applies, or its
+bucket's hit epoch is alive and has reached `count` hits (backoff, lasting `Duration` after the first
+hit), or at least `limit` earlier counted events of its bucket lie in the closed window; allowlisted
+clients pass untouched.
+PARTIAL: histories with a non-quiet reset are excluded, and `backoff_reset_counterexample` shows the
+exclusion is necessary (known finding `reqcounter-expires-period-after-creation`). -/
+theorem backoff_is_window_log_partial (c : Cfg) (h4 : 0 ≤ c.v4ivl) (h6 : 0 ≤ c.v6ivl) (evs : List Ev)
+    (hch : Chain 0 evs) (hq : QuietResets c ESpec.empty evs) :
+    run c St.empty evs = especRun { c with period := 0 } ESpec.empty evs := by
+  rw [backoff_refines_epoch_log c h4 h6 evs hch, epoch_log_exact_when_resets_quiet c evs hch hq]
+
+/-- **epoch_log_is_pure_window_when_no_expiry.** With non-positive `Period` and `Duration` epochs never
+die and the epoch specification is the plain window-log specification, for every history. -/
+theorem epoch_log_is_pure_window_when_no_expiry (c : Cfg) (hp : c.period ≤ 0) (hdur : c.duration ≤ 0)
+    (evs : List Ev) :
+    especRun c ESpec.empty evs = specRun c Spec.empty evs := by
+  have key : ∀ (evs : List Ev) (esp : ESpec) (sp : Spec), (∀ k, PureK esp sp k) →
+      especRun c esp evs = specRun c sp evs := by
+    intro evs
+    induction evs with
+    | nil => intro _ _ _; rfl
+    | cons e r ih =>
+      intro esp sp hs
+      have := pure_step c esp sp e hp hdur hs
+      simp only [especRun, specRun]
+      rw [this.1, ih _ _ this.2]
+  apply key
+  intro k; simp [PureK, ESpec.empty, Spec.empty]
+
+/-- **backoff_is_window_log_noexpiry.** With cache entries that never expire (non-positive `Period`
+and `Duration`) the real limiter's verdicts are those of the plain window-log specification `specRun`
+(stamps and a hit count per bucket, no epochs).  Corollary of `backoff_refines_epoch_log`. -/
+theorem backoff_is_window_log_noexpiry (c : Cfg) (hp : c.period ≤ 0) (hdur : c.duration ≤ 0)
+    (h4 : 0 ≤ c.v4ivl) (h6 : 0 ≤ c.v6ivl) (evs : List Ev) (hch : Chain 0 evs) :
+    run c St.empty evs = specRun c Spec.empty evs := by
+  rw [backoff_refines_epoch_log c h4 h6 evs hch, epoch_log_is_pure_window_when_no_expiry c hp hdur evs]
 
 /-- Non-vacuity: a concrete history (limit 1 per 10 ns in a /24, backoff after 2 hits) meets the
 hypotheses and exercises pass, window drop and backoff drop. -/
@@ -76,8 +148,26 @@ def exCfg2 : Cfg :=
     v6count := 1, v6ivl := 10, v6len := 48, refuseAny := false, allow := [] }
 def exEvs : List Ev :=
   [⟨1, ⟨true, 167772161⟩, 1⟩, ⟨2, ⟨true, 167772162⟩, 1⟩, ⟨3, ⟨true, 167772163⟩, 1⟩, ⟨100, ⟨true, 167772161⟩, 1⟩]
-example : Chain 0 exEvs ∧ specRun exCfg2 Spec.empty exEvs = [.pass, .drop, .drop, .drop] := by
-  refine ⟨by simp [Chain, exEvs], by decide⟩
+example : exCfg2.period ≤ 0 ∧ exCfg2.duration ≤ 0 ∧ 0 ≤ exCfg2.v4ivl ∧ 0 ≤ exCfg2.v6ivl ∧
+    Chain 0 exEvs ∧ specRun exCfg2 Spec.empty exEvs = [.pass, .drop, .drop, .drop] := by
+  refine ⟨by decide, by decide, by decide, by decide, by simp [Chain, exEvs], by decide⟩
+
+/-- Non-vacuity of `backoff_is_window_log_partial` with a POSITIVE `Period` (5): limit 1 per 2 ns.  The
+log born at 1 is wiped by the event at 10 (> 1 + 5); the discarded stamps 2 and 1 are more than 2
+old, so the reset is quiet, and the exact window gives pass, drop, pass, drop. -/
+def exCfg5 : Cfg :=
+  { count := 1000, period := 5, duration := 0, est := 1, v4count := 1, v4ivl := 2, v4len := 24,
+    v6count := 1, v6ivl := 2, v6len := 48, refuseAny := false, allow := [] }
+def exEvs5 : List Ev :=
+  [⟨1, ⟨true, 167772161⟩, 1⟩, ⟨2, ⟨true, 167772162⟩, 1⟩, ⟨10, ⟨true, 167772163⟩, 1⟩, ⟨11, ⟨true, 167772161⟩, 1⟩]
+example : 0 ≤ exCfg5.v4ivl ∧ 0 ≤ exCfg5.v6ivl ∧ Chain 0 exEvs5 ∧ QuietResets exCfg5 ESpec.empty exEvs5 ∧
+    ((especStep exCfg5 (especStep exCfg5 ESpec.empty ⟨1, ⟨true, 167772161⟩, 1⟩).1 ⟨2, ⟨true, 167772162⟩, 1⟩).1
+      (evKey exCfg5 ⟨10, ⟨true, 167772163⟩, 1⟩)).resetsAt exCfg5.period 10 = true ∧
+    especRun { exCfg5 with period := 0 } ESpec.empty exEvs5 = [.pass, .drop, .pass, .drop] ∧
+    run exCfg5 St.empty exEvs5 = [.pass, .drop, .pass, .drop] := by
+  refine ⟨by decide, by decide, by simp [Chain, exEvs5], by decide, by decide, by decide, by decide⟩
+
+example : exCfg5.period > 0 ∧ ¬ QuietResets { exCfg5 with v4ivl := 100 } ESpec.empty exEvs5 := by decide
 
 def exCfg3 : Cfg :=
   { count := 1000, period := 300, duration := 3600000, est := 100000, v4count := 2, v4ivl := 10000,
@@ -85,6 +175,31 @@ def exCfg3 : Cfg :=
 def exEvs3 : List Ev :=
   [⟨1, ⟨true, 3221225985⟩, 1⟩, ⟨2, ⟨true, 3221225985⟩, 1⟩, ⟨3, ⟨true, 3221225985⟩, 1⟩,
    ⟨4, ⟨true, 3221225985⟩, 1⟩, ⟨404, ⟨true, 3221225985⟩, 1⟩]
+
+/-- Non-vacuity of `backoff_refines_epoch_log` with a positive `Period` (300) and `Duration`: the
+history of `backoff_reset_counterexample` meets the hypotheses, and the epoch specification gives the
+real limiter's verdicts, including the fifth query passing after the log was wiped at 1 + 300. -/
+example : Chain 0 exEvs3 ∧ 0 ≤ exCfg3.v4ivl ∧ 0 ≤ exCfg3.v6ivl ∧
+    especRun exCfg3 ESpec.empty exEvs3 = [.pass, .pass, .drop, .drop, .pass] := by
+  refine ⟨by simp [Chain, exEvs3], by decide, by decide, by decide⟩
+
+/-- The history of `backoff_reset_counterexample` is excluded by `backoff_is_window_log_partial`: its
+reset at 404 discards stamps that are still inside the 10 s window. -/
+example : ¬ QuietResets exCfg3 ESpec.empty exEvs3 ∧
+    especRun { exCfg3 with period := 0 } ESpec.empty exEvs3 = [.pass, .pass, .drop, .drop, .drop] ∧
+    run exCfg3 St.empty exEvs3 = [.pass, .pass, .drop, .drop, .pass] := by decide
+
+/-- A small positive `Duration` (5): limit 1 per 1 ns, backoff after 1 hit.  The second query is over
+the limit (first hit at 2, hit epoch alive until 2 + 5); the third, at 5, has an empty window but is
+dropped by backoff; the fourth, at 8, finds the hit epoch dead and an empty window and passes. -/
+def exCfg4 : Cfg :=
+  { count := 1, period := 0, duration := 5, est := 1, v4count := 1, v4ivl := 1, v4len := 24,
+    v6count := 1, v6ivl := 1, v6len := 48, refuseAny := false, allow := [] }
+def exEvs4 : List Ev :=
+  [⟨1, ⟨true, 167772161⟩, 1⟩, ⟨2, ⟨true, 167772162⟩, 1⟩, ⟨5, ⟨true, 167772163⟩, 1⟩, ⟨8, ⟨true, 167772161⟩, 1⟩]
+example : Chain 0 exEvs4 ∧ especRun exCfg4 ESpec.empty exEvs4 = [.pass, .drop, .drop, .pass] ∧
+    run exCfg4 St.empty exEvs4 = [.pass, .drop, .drop, .pass] := by
+  refine ⟨by simp [Chain, exEvs4], by decide, by decide⟩
 
 /-- **backoff_reset_counterexample.** With a positive `Period` the exact-window claim is false for
 the code as written: limit 2 per 10 s, period 300 ms — the fifth query, 0.4 s after four others,
@@ -142,6 +257,72 @@ theorem profile_outside_subnets_uses_global (c : Cfg) (g : St) (p : ProfLim) (no
   rcases h : isRateLimited c g now a q with ⟨g', v⟩
   cases v <;> cases rl <;> simp
 
+/-- **profile_limiter_is_window_log.** A profile's own limiter (a fresh one-second counter of `rps`
+requests), over every history of requests with positive non-decreasing times, gives exactly the
+window-log specification's verdicts: a client outside the profile's configured subnets is handed to
+the global limiter and is not counted; any other request is dropped iff at least `rps` earlier
+counted requests of the profile lie within the closed last second, and is counted either way. -/
+theorem profile_limiter_is_window_log (rps : Nat) (p : ProfLim) (evs : List (Int × Addr))
+    (hfresh : p.ctr = Counter.new rps 1000000000) (hch : TChain 0 evs) :
+    profRun p evs = profSpecRun rps p.subnets [] evs := by
+  have := profRun_sim rps evs p 0 (by rw [hfresh]; rfl) (by rw [hfresh]; rfl) (by rw [hfresh]; trivial)
+    (by rw [hfresh]; intro x hx; cases hx) hch
+  rw [this, hfresh]; rfl
+
+/-- Non-vacuity: 2 rps, subnet 10.0.0.0/8; a client outside the subnet is not counted. -/
+def exProf : ProfLim :=
+  { subnets := [⟨true, 167772160, 8⟩], ctr := Counter.new 2 1000000000, est := 1 }
+def exProfEvs : List (Int × Addr) :=
+  [(1, ⟨true, 167772161⟩), (2, ⟨true, 3221225985⟩), (3, ⟨true, 167772162⟩), (4, ⟨true, 167772163⟩),
+   (2000000000, ⟨true, 167772161⟩)]
+example : exProf.ctr = Counter.new 2 1000000000 ∧ TChain 0 exProfEvs ∧
+    profSpecRun 2 exProf.subnets [] exProfEvs = [.pass, .useGlobal, .pass, .drop, .pass] := by
+  refine ⟨rfl, by simp [TChain, exProfEvs], by decide⟩
+
+/-- **other_protocols_never_limited.** On a protocol that is not rate limited the middleware serves
+the request and touches neither limiter. -/
+theorem other_protocols_never_limited (c : Cfg) (m : MwSt) (now tick : Int) (a : Addr) (q : Nat)
+    (rl : Option Nat) : serve c false m now tick a q rl = (m, .servedNoCount) := by
+  simp [serve]
+
+/-- **global_path_exact.** Without a profile limiter, on a rate-limited protocol: the request is
+dropped iff the global limiter says drop; an allowlisted request is served with no state change and
+its response is not weighed; a passed request's response of `len` bytes is weighed into the limiter. -/
+theorem global_path_exact (c : Cfg) (g : St) (now tick : Int) (a : Addr) (q : Nat) (rl : Option Nat) :
+    ((serve c true { glob := g, prof := none } now tick a q rl).2 = .dropped ↔
+      (isRateLimited c g now a q).2 = .drop) ∧
+    ((isRateLimited c g now a q).2 = .allowlisted →
+      serve c true { glob := g, prof := none } now tick a q rl = ({ glob := g, prof := none }, .servedNoCount)) ∧
+    (∀ len, (isRateLimited c g now a q).2 = .pass → rl = some len →
+      (serve c true { glob := g, prof := none } now tick a q rl).1.glob =
+        countResponses c (isRateLimited c g now a q).1 (loopTimes now tick (respWeight c.est len)) a q ∧
+      (serve c true { glob := g, prof := none } now tick a q rl).2 = .servedCounted) := by
+  have hst := allowlisted_verdict_state c g now a q
+  unfold serve serveGlobal
+  simp only [Bool.not_true, Bool.false_eq_true, if_false]
+  rcases h : isRateLimited c g now a q with ⟨g', v⟩
+  rw [h] at hst
+  cases v
+  · simp
+  · have : g' = g := hst rfl
+    subst this
+    simp
+  · cases rl <;> simp
+
+example : (isRateLimited exCfg2 St.empty 1 ⟨true, 167772161⟩ 1).2 = .pass ∧
+    (isRateLimited { exCfg2 with allow := [⟨true, 167772160, 8⟩] } St.empty 1 ⟨true, 167772161⟩ 1).2 = .allowlisted := by
+  decide
+
+/-- **lib_middleware_exact.** The library middleware: a protocol outside the configured list is served
+unlimited; a remote address without a port is dropped before the limiter is consulted (state
+untouched); otherwise the outcome is exactly the global flow. -/
+theorem lib_middleware_exact (c : Cfg) (g : St) (now tick : Int) (a : Addr) (q : Nat) (rl : Option Nat)
+    (pz : Bool) :
+    serveLib c false pz g now tick a q rl = (g, .servedNoCount) ∧
+    serveLib c true true g now tick a q rl = (g, .dropped) ∧
+    serveLib c true false g now tick a q rl = serveGlobal c g now tick a q rl := by
+  simp [serveLib]
+
 /-- **refuse_any_all.** With ANY refusal configured every ANY query is dropped, allowlisted or not. -/
 theorem refuse_any_all (c : Cfg) (s : St) (now : Int) (a : Addr) (h : c.refuseAny = true) :
     (isRateLimited c s now a qtypeANY).2 = .drop := by
@@ -165,6 +346,67 @@ def exCfg : Cfg :=
 example : allowed exCfg { is4 := true, val := 167838211 } = true ∧
     ¬ (exCfg.refuseAny = true ∧ 1 = qtypeANY) := by decide
 
+/-- **allowlist_flat.** The limiter's allowlist test over the flattened list is `DynamicAllowlist.IsAllowed`. -/
+theorem allowlist_flat (c : Cfg) (l : Allowlist) (a : Addr) :
+    allowed { c with allow := l.flat } a = l.isAllowed a := by
+  simp [allowed, Allowlist.flat, Allowlist.isAllowed, List.any_append]
+
+/-- **allowlist_update_replaces_dynamic.** After `Update nets` a client is allowlisted iff it is in a
+persistent network or in one of `nets`: the previous dynamic networks are forgotten, the persistent
+ones cannot be removed. -/
+theorem allowlist_update_replaces_dynamic (l : Allowlist) (nets : List Prefix) (a : Addr) :
+    (l.update nets).isAllowed a =
+      (l.persistent.any (fun p => p.contains a) || nets.any (fun p => p.contains a)) := by
+  simp [Allowlist.update, Allowlist.isAllowed]
+
+/-- **allowlist_only_matters_for_its_clients.** Replacing the allowlist changes nothing for a client
+whose membership did not change: same verdict, same new limiter state, whatever the state was.  So an
+allowlist update never touches limiter state and changes the verdict only of clients whose membership
+changed. -/
+theorem allowlist_only_matters_for_its_clients (c : Cfg) (al' : List Prefix) (s : St) (now : Int)
+    (a : Addr) (q : Nat) (h : allowed c a = allowed { c with allow := al' } a) :
+    isRateLimited c s now a q = isRateLimited { c with allow := al' } s now a q := by
+  unfold isRateLimited
+  rw [← h]
+  rfl
+
+example : allowed exCfg ⟨true, 3221225985⟩ =
+    allowed { exCfg with allow := [⟨true, 167772160, 8⟩, ⟨true, 2886729728, 12⟩] } ⟨true, 3221225985⟩ := by
+  decide
+
+/-- **backoff_refines_epoch_log_dynamic_allowlist.** `backoff_refines_epoch_log` for histories in which
+the allowlist changes between events (`DynamicAllowlist.Update`): every event is judged under the
+allowlist current at its time, on both sides; limiter state and specification state never depend on
+the allowlist. -/
+theorem backoff_refines_epoch_log_dynamic_allowlist (c : Cfg) (h4 : 0 ≤ c.v4ivl) (h6 : 0 ≤ c.v6ivl)
+    (evs : List (List Prefix × Ev)) (hch : Chain 0 (evs.map (·.2))) :
+    runA c St.empty evs = especRunA c ESpec.empty evs := by
+  have key : ∀ (evs : List (List Prefix × Ev)) (s : St) (sp : ESpec) (T : Int), (∀ k, ESimK c s sp k) →
+      ETimeInv sp T → Chain T (evs.map (·.2)) → runA c s evs = especRunA c sp evs := by
+    intro evs
+    induction evs with
+    | nil => intro _ _ _ _ _ _; rfl
+    | cons ae r ih =>
+      intro s sp T hs ht hc
+      obtain ⟨al, e⟩ := ae
+      obtain ⟨hpos, hT, hrest⟩ := hc
+      have := esim_step { c with allow := al } s sp e T h4 h6
+        (fun k => (esimK_allow c al s sp k).mpr (hs k)) ht hpos hT
+      simp only [runA, especRunA]
+      rw [this.1, ih _ _ _ (fun k => (esimK_allow c al _ _ k).mp (this.2.1 k)) this.2.2 hrest]
+  apply key evs St.empty ESpec.empty 0 _ _ hch
+  · intro k; simp [ESimK, St.empty, ESpec.empty]
+  · intro k; simp [ESpec.empty, Desc]
+
+/-- Non-vacuity: the same client is allowlisted, then (after an update removing its network) counted
+and limited, then allowlisted again. -/
+def exEvsA : List (List Prefix × Ev) :=
+  [([⟨true, 167772160, 8⟩], ⟨1, ⟨true, 167772161⟩, 1⟩), ([], ⟨2, ⟨true, 167772161⟩, 1⟩),
+   ([], ⟨3, ⟨true, 167772161⟩, 1⟩), ([⟨true, 167772160, 8⟩], ⟨4, ⟨true, 167772161⟩, 1⟩)]
+example : Chain 0 (exEvsA.map (·.2)) ∧
+    especRunA exCfg5 ESpec.empty exEvsA = [.allowlisted, .pass, .drop, .allowlisted] := by
+  refine ⟨by simp [Chain, exEvsA], by decide⟩
+
 /-- **subnet_isolation.** Non-interference between buckets: the verdicts a subnet's events get inside
 an arbitrary history equal the verdicts they get when every event of every other subnet is removed.
 A flooding subnet cannot change what any other subnet experiences. -/
@@ -184,15 +426,84 @@ theorem subnet_isolation (c : Cfg) (k : Key) (evs : List Ev) :
       simp only [runK, hk, List.filter, decide_false, if_false]
       exact ih _ _ ⟨hf.1.trans hag.1, hf.2.trans hag.2⟩
 
+/-- **subnet_isolation_dynamic_allowlist.** `subnet_isolation` for histories in which the allowlist
+changes between events: the verdicts a subnet's events get inside an arbitrary history equal those
+they get when every event of every other subnet is removed. -/
+theorem subnet_isolation_dynamic_allowlist (c : Cfg) (k : Key) (evs : List (List Prefix × Ev)) :
+    ∀ s₁ s₂, Agree k s₁ s₂ →
+      runKA c k s₁ evs = runA c s₂ (evs.filter (fun ae => decide (evKey c ae.2 = k))) := by
+  induction evs with
+  | nil => intro _ _ _; rfl
+  | cons ae r ih =>
+    intro s₁ s₂ hag
+    obtain ⟨al, e⟩ := ae
+    by_cases hk : evKey c e = k
+    · subst hk
+      have := local_step { c with allow := al } s₁ s₂ e.now e.addr e.qtype hag
+      simp only [runKA, List.filter, decide_true, runA, if_true]
+      rw [this.1, ih _ _ this.2]
+    · have hf := frame { c with allow := al } s₁ e.now e.addr e.qtype k hk
+      simp only [runKA, hk, List.filter, decide_false, if_false]
+      exact ih _ _ ⟨hf.1.trans hag.1, hf.2.trans hag.2⟩
+
+example : runKA exCfg5 (evKey exCfg5 ⟨1, ⟨true, 167772161⟩, 1⟩) St.empty
+      (exEvsA ++ [([], ⟨5, ⟨true, 3221225985⟩, 1⟩)]) = [.allowlisted, .pass, .drop, .allowlisted] := by
+  decide
+
+/-- **subnetKey_eq_iff_same_leading_bits.** Two addresses of one family fall into the same bucket
+exactly when their leading `bits` bits (the family's configured subnet length) agree: the bucket key
+is the address masked to its subnet. -/
+theorem subnetKey_eq_iff_same_leading_bits (a b : Addr) (v4len v6len : Nat) (hf : a.is4 = b.is4)
+    (ha : a.val < 2 ^ width a.is4) (hb : b.val < 2 ^ width b.is4)
+    (hbits : (if a.is4 then v4len else v6len) ≤ width a.is4) :
+    subnetKey a v4len v6len = subnetKey b v4len v6len ↔
+      ∀ i, i < (if a.is4 then v4len else v6len) →
+        a.val.testBit (width a.is4 - 1 - i) = b.val.testBit (width a.is4 - 1 - i) := by
+  rw [← hf] at hb
+  rw [← shiftRight_eq_iff_leading_bits _ _ _ _ hbits ha hb]
+  simp [subnetKey, ← hf]
+
+example : subnetKey ⟨true, 167772161⟩ 24 48 = subnetKey ⟨true, 167772414⟩ 24 48 ∧
+    subnetKey ⟨true, 167772161⟩ 24 48 ≠ subnetKey ⟨true, 167772417⟩ 24 48 ∧
+    (167772161 : Nat) < 2 ^ width true ∧ 24 ≤ width true := by decide
+
+/-- **prefix_contains_iff_same_leading_bits.** A network contains an address exactly when family and
+the leading `bits` bits agree. -/
+theorem prefix_contains_iff_same_leading_bits (p : Prefix) (a : Addr)
+    (ha : a.val < 2 ^ width a.is4) (hp : p.val < 2 ^ width a.is4) (hbits : p.bits ≤ width a.is4) :
+    p.contains a = true ↔ p.is4 = a.is4 ∧
+      ∀ i, i < p.bits → a.val.testBit (width a.is4 - 1 - i) = p.val.testBit (width a.is4 - 1 - i) := by
+  rw [← shiftRight_eq_iff_leading_bits _ _ _ _ hbits ha hp]
+  simp [Prefix.contains]
+
+example : (⟨true, 167772160, 8⟩ : Prefix).contains ⟨true, 167838211⟩ = true ∧
+    (167838211 : Nat) < 2 ^ width true ∧ (167772160 : Nat) < 2 ^ width true ∧ 8 ≤ width true := by decide
+
 end Agd.Ratelimit
 
 #print axioms Agd.Ratelimit.counter_exact
 #print axioms Agd.Ratelimit.ring_refines_history
+#print axioms Agd.Ratelimit.backoff_refines_epoch_log
+#print axioms Agd.Ratelimit.epoch_log_exact_when_resets_quiet
+#print axioms Agd.Ratelimit.quietResets_of_no_period
 #print axioms Agd.Ratelimit.backoff_is_window_log_partial
+#print axioms Agd.Ratelimit.epoch_log_is_pure_window_when_no_expiry
+#print axioms Agd.Ratelimit.backoff_is_window_log_noexpiry
 #print axioms Agd.Ratelimit.backoff_reset_counterexample
 #print axioms Agd.Ratelimit.large_response_weight
 #print axioms Agd.Ratelimit.profile_limit_replaces_global
 #print axioms Agd.Ratelimit.profile_outside_subnets_uses_global
+#print axioms Agd.Ratelimit.profile_limiter_is_window_log
+#print axioms Agd.Ratelimit.other_protocols_never_limited
+#print axioms Agd.Ratelimit.global_path_exact
+#print axioms Agd.Ratelimit.lib_middleware_exact
 #print axioms Agd.Ratelimit.refuse_any_all
 #print axioms Agd.Ratelimit.allowlisted_never_dropped
+#print axioms Agd.Ratelimit.allowlist_flat
+#print axioms Agd.Ratelimit.allowlist_update_replaces_dynamic
+#print axioms Agd.Ratelimit.allowlist_only_matters_for_its_clients
+#print axioms Agd.Ratelimit.backoff_refines_epoch_log_dynamic_allowlist
 #print axioms Agd.Ratelimit.subnet_isolation
+#print axioms Agd.Ratelimit.subnet_isolation_dynamic_allowlist
+#print axioms Agd.Ratelimit.subnetKey_eq_iff_same_leading_bits
+#print axioms Agd.Ratelimit.prefix_contains_iff_same_leading_bits
